@@ -330,6 +330,9 @@ def entry_points():
             "[general]\nfamily = Foo\nversion = 21_%s\narch = x86_64\ntimestamp = 1\nvariant = Foo\n" % s))),
         ("TreeInfo.loads(checksum value)", one_line(lambda s: ti.TreeInfo().loads((TI_HEAD % "1") + "\n[checksums]\na = %s\n" % s))),
         ("DiscInfo.loads(timestamp line)", one_line(lambda s: di.DiscInfo().loads("%s\nFedora\nx86_64\nALL" % s))),
+        ("DiscInfo.loads(description line)", one_line(lambda s: di.DiscInfo().loads("1.5\n%s\nx86_64\nALL" % s))),
+        ("DiscInfo.loads(arch line)", one_line(lambda s: di.DiscInfo().loads("1.5\nFedora\n%s\nALL" % s))),
+        ("DiscInfo.loads(disc numbers line)", one_line(lambda s: di.DiscInfo().loads("1.5\nFedora\nx86_64\n%s" % s))),
         # the same documents handed over as byte streams (a file opened "rb", a network response): reading is part of parsing
         ("ComposeInfo.load(byte stream, compose.label)", lambda s: ci.ComposeInfo().load(io.BytesIO(ci_doc(payload__compose__label=s).encode("utf-8")))),
         ("ComposeInfo.load(byte stream, variant id)", lambda s: ci.ComposeInfo().load(io.BytesIO(ci_doc(payload__variants__Server__id=s).encode("utf-8")))),
@@ -341,7 +344,7 @@ def entry_points():
     ]
 
 
-GENERIC = ["a", "1", "-", ".", ":", "!", "/", "@", " ", "A", "_", "\n"]
+GENERIC = ["a", "1", "-", ".", ":", "!", "/", "@", " ", "A", "_", "\n", "\"", "'"]
 
 
 # ---- number-shaped text ----------------------------------------------------------------------------------------------------
@@ -435,7 +438,10 @@ STRUCTURE_SIZES = {"composeinfo-chain": [2, 4, 6, 8, 10, 12, 14, 16, 20, 24, 32]
                    "composeinfo-siblings": [4, 16, 64, 128], "composeinfo-two-levels": [2, 4, 8, 12], "images-one-cell": [4, 16, 64], "rpms-0.3-packages": [4, 16, 64, 128],
                    "treeinfo-siblings": [4, 16, 64],
                    # values that LOOK like references to other options of the file (the syntax some INI readers expand): nine levels, k references each
-                   "treeinfo-percent-references": [1, 2, 3, 4, 5, 6, 8]}
+                   "treeinfo-percent-references": [1, 2, 3, 4, 5, 6, 8],
+                   # header-less files whose child sections are named by bare id and list the next level's ids: one section per id, d levels;
+                   # and header-less files whose [general] lists k add-ons that have no sections of their own
+                   "treeinfo-legacy-shared-sections": [2, 4, 6, 8, 10, 12, 14, 16, 20], "treeinfo-legacy-general-addons": [2, 4, 6, 8, 10, 12, 16]}
 R3_LIMIT, R3_CHARS = 1.0, 20000
 
 
@@ -467,6 +473,17 @@ def structured_document(kind, n):
     if kind.startswith("treeinfo"):
         lines = ["[header]", "type = productmd.treeinfo", "version = 1.2", "", "[release]", "name = F", "short = F", "version = 22", "",
                  "[tree]", "arch = x86_64", "build_timestamp = 1", "platforms = x86_64"]
+        if kind == "treeinfo-legacy-shared-sections":
+            legacy = ["[general]", "family = Foo", "version = 1", "arch = x86_64", "timestamp = 1", "variant = r", "", "[variant-r]", "addons = a1,b1", ""]
+            for level in range(1, n + 1):
+                for x in "ab":
+                    legacy.append("[variant-%s%d]" % (x, level))
+                    if level < n:
+                        legacy.append("addons = a%d,b%d" % (level + 1, level + 1))
+                    legacy.append("")
+            return "treeinfo", "\n".join(legacy) + "\n"
+        if kind == "treeinfo-legacy-general-addons":
+            return "treeinfo", "[general]\nfamily = Foo\nversion = 1\narch = x86_64\ntimestamp = 1\nvariant = Foo\naddons = %s\n" % ",".join("A%d" % i for i in range(n))
         if kind == "treeinfo-percent-references":
             lines[lines.index("name = F")] = "name = " + "%(n1)s" * n
             at = lines.index("short = F")
@@ -522,7 +539,10 @@ def structured_case(case):
                 case["kind"], n, len(text), "more than 4.0" if t is None else "%.2f" % t, R3_LIMIT))
         if t is None:
             break
-        check(holder, "structured-document-refused", "harness: %s n=%d was not loaded" % (case["kind"], n))
+        if not holder:
+            # refused (quickly): that is an answer too; only the time matters here
+            prev, worst = (len(text), t), max(worst, t)
+            continue
         td = measure(holder[-1].dumps, 4.0)
         if len(text) <= R3_CHARS:
             check(td is not None and td <= R3_LIMIT, "small-document-stalls", lambda: "%s with n=%d: the object loaded from a %d-character document took %s CPU seconds to dump (limit %.1f s)" % (
